@@ -6,6 +6,7 @@ package main
 import (
 	"fmt"
 	"math/rand"
+	"strings"
 )
 
 var entries = []string{"Render", "RenderString", "FRender", "ParseAndRender", "ParseAndRenderString", "ParseAndFRender"}
@@ -156,15 +157,24 @@ func genMapSession(r *rand.Rand, i int) J {
 }
 
 // sessions whose bindings are strings only, so the command-line tool can take part
+// text that a careless output path would mangle: format verbs, escapes, shell and terminal specials, long lines
+var cliTexts = []string{"50% off %d %s %v %%", "100%", "a\\nb\\t\\x41", "$HOME ${X} `id` $(id)", "-n -e --help", "\r\n\r\n", "\ttab\there", "é😀 \u00a0", "'single' \"double\"",
+	"<&>", "\x1b[31mred\x1b[0m", "%", "%%", "% d", "%!s(MISSING)", "{ } { %", "~!@#^&*()=+[]|;:,.?/"}
+
 func genCLISession(r *rand.Rand, i int) J {
-	env := []any{[]any{bs("S"), vStr(pick(r, []string{"a", "x y", "é", ""}))}, []any{bs("T"), vStr(pick(r, []string{"b", "10", " p "}))}}
+	env := []any{[]any{bs("S"), vStr(pick(r, append([]string{"a", "x y", "é", ""}, cliTexts...)))}, []any{bs("T"), vStr(pick(r, append([]string{"b", "10", " p "}, cliTexts...)))}}
+	long := strings.Repeat(pick(r, cliTexts)+" ", 3000) // more than a pipe buffer holds
 	templates := []any{
 		[]any{nObj(eVar("S")), nText("-"), nObj(eFilter(eVar("T"), "upcase")), nText("\n")},
 		[]any{J{"t": "if", "branches": []any{J{"c": eCmp("==", eVar("S"), eLit(vStr("a"))), "body": []any{nText("A")}}, J{"c": J{"t": "else"}, "body": []any{nObj(eFilter(eVar("S"), "size"))}}}}},
 		[]any{J{"t": "for", "tag": "for", "var": bs("i"), "coll": J{"t": "range", "a": eLit(vInt(1)), "b": eLit(vInt(3))}, "body": []any{nObj(eVar("i")), nObj(eVar("T"))}}},
+		[]any{nText(pick(r, cliTexts)), nObj(eVar("S")), nText(pick(r, cliTexts))},
+		[]any{nObj(eFilter(eVar("T"), "url_encode")), nText("|"), nObj(eFilter(eVar("S"), "escape")), nText("|"), nObj(eFilter(eVar("S"), "append", eVar("T")))},
+		[]any{nText(long), nObj(eVar("T"))},
+		[]any{J{"t": "raw", "s": bs(pick(r, cliTexts))}, nText(pick(r, cliTexts))},
 	}
 	ops := []any{}
-	for k := 0; k < 9; k++ {
+	for k := 0; k < 2*len(templates)+2; k++ {
 		e := "CLI"
 		if k%3 == 0 {
 			e = pick(r, entries)
@@ -254,6 +264,18 @@ func genConSession(r *rand.Rand, i int) J {
 	}
 	c["ops"] = ops
 	c["cachewriters"] = 2
+	// in some sessions the maps g and h are Go structs (fields tagged with the keys), shared by all goroutines; what a
+	// struct answers where a map would (size, iteration) is not the reference's business: these sessions are judged
+	// on determinism, independence and immutability only
+	if i%3 == 0 {
+		for _, rp := range jarr(c, "reprs") {
+			if m := jobj(rp); m != nil {
+				m["g"] = "struct"
+				m["h"] = "structptr"
+			}
+		}
+		c["noref"] = true
+	}
 	// some engines are configured with custom delimiters, some positions left empty (= default)
 	switch i % 4 {
 	case 1:
